@@ -8,7 +8,7 @@ declare -A MAP=(
  [revert-fix-Dgh-atomic-snapshot]="C12" [revert-fix-Di-strip-rawpath]="C13" [revert-fix-Dj-disable-compression]="C13"
  [revert-fix-Dk-subpath-certmanager]="C11" [revert-fix-Dl-probe-during-drain]="C09" [revert-fix-Dn-tls-without-host]="C20"
  [revert-fix-Do-rollout-target-options]="C11" [revert-fix-Dp-request-buffer-close]="C14" [revert-fix-Dr1-pausecontroller-marshal]="C18"
- [revert-fix-Dr2-4-service-accessors]="C18" [revert-fix-Dr5-hijacked-atomic]="C18" [revert-fix-Dr7-log-header-copy]="C18" )
+ [revert-fix-Dr2-4-service-accessors]="C18" [revert-fix-Dr5-hijacked-atomic]="C18" [revert-fix-Dr7-log-header-copy]="C18" [revert-fix-Dm-install-under-lock]="C17" )
 out=mutants/RESULTS.tsv; : > $out
 for f in mutants/*.diff; do
   name=$(basename $f .diff)
@@ -20,8 +20,9 @@ for f in mutants/*.diff; do
   git apply /verif/$f
   if ! GOPROXY=off go build ./... 2>/dev/null; then echo -e "$name\t$checks\tDOES-NOT-BUILD" >> /verif/$out; git checkout -- .; cd /verif; continue; fi
   cd /verif
-  for c in $checks; do
-    o=$(timeout 1500 ./check $c --tier quick --seed ${VERIF_SEED:-1} --no-evidence 2>&1); rc=$?
+  for entry in $checks; do
+    c=${entry%%:*}; tier=quick; [ "$entry" != "$c" ] && tier=${entry#*:}
+    o=$(timeout 2500 ./check $c --tier $tier --seed ${VERIF_SEED:-1} --no-evidence 2>&1); rc=$?
     sig=$(echo "$o" | grep -m1 -- '->' | sed 's/^ *-> //' | cut -d'|' -f1 | cut -c1-90)
     case $rc in 1) v=CAUGHT;; 0) v=MISSED;; *) v="rc=$rc";; esac
     echo -e "$name\t$c\t$v\t$sig" >> $out
